@@ -108,7 +108,8 @@ def impl_dual(c):
     return g, d
 
 
-def spec_check(ck, c, g, d, conn, tag="grid", mconn=None, report=True):
+def spec_check(ck, c, g, d, conn, tag="grid", mconn=None, report=True, check_ring=True, case_extra=None,
+               corners="exact", stats=None):
     """clauses of C18 on one dual connectivity (list of rows); returns the list of (clause, row index) that fail.
     mconn: the rows of the exact faithful model (to tell the known algorithmic limitation — faces are ordered by the
     azimuth of their centres, which leaves the umbrella order at a face with a reflex corner — from any other way of
@@ -127,6 +128,7 @@ def spec_check(ck, c, g, d, conn, tag="grid", mconn=None, report=True):
         bad.append((clause, k))
         if report:
             cc = {kk: c[kk] for kk in ("table", "lonlat", "n_node", "closed", "mesh_class", "name", "kind", "nodes")}
+            cc.update(case_extra or {})
             ck.fail(clause, cc, i2, detail=detail)
 
     if len(conn) != len(nodes3):
@@ -137,11 +139,21 @@ def spec_check(ck, c, g, d, conn, tag="grid", mconn=None, report=True):
         if any(x != FILL for x in row[len(ring):]) or row[:len(ring)] != ring:
             fail("pad", "dual face %d (node %d) row %r" % (k, v, row), k=k)
             continue
+        if corners == "subset":
+            # after the centres were redefined (Welzl centres of coarse faces can coincide or sit on the node) only what
+            # holds for ANY centres is demanded: no repeats, only faces of the node (C18_pad); incomplete rings are counted
+            if len(set(ring)) != len(ring) or not set(ring) <= set(inc[v]):
+                fail("corners", "dual face %d (node %d): corners %r, faces at the node %r" % (k, v, ring, sorted(inc[v])),
+                     {"valence": len(inc[v])}, k=k)
+            elif len(ring) != len(inc[v]) and stats is not None:
+                stats["rows_with_a_face_dropped_after_centres_were_redefined"] = \
+                    stats.get("rows_with_a_face_dropped_after_centres_were_redefined", 0) + 1
+            continue
         if sorted(ring) != sorted(inc[v]):
             fail("corners", "dual face %d (node %d): corners %r, faces at the node %r" % (k, v, ring, sorted(inc[v])),
                  {"valence": len(inc[v])}, k=k)
             continue
-        if c["closed"] and c.get("ccw_ok"):
+        if check_ring and c["closed"] and c.get("ccw_ok"):
             kk = len(ring)
             fwd = all(prv(faces[ring[i]], v) == nxt(faces[ring[(i + 1) % kk]], v) for i in range(kk))
             if not fwd:
@@ -178,9 +190,12 @@ def geometric_ccw(c, d, conn):
     return pos, neg
 
 
-def check_nodes(ck, c, g, d, level="grid"):
+def check_nodes(ck, c, g, d, level="grid", case_extra=None, info_extra=None):
+    """dual node i sits at the CURRENT centre (Grid.face_lon / face_lat) of primal face i"""
     info = {"level": level, "closed": c["closed"], "mesh_class": c["mesh_class"]}
-    case = {k: c[k] for k in ("table", "lonlat", "n_node", "closed", "mesh_class", "name", "kind")}
+    case = {k: c[k] for k in ("table", "lonlat", "n_node", "closed", "mesh_class", "name", "kind", "nodes")}
+    case.update(case_extra or {})
+    info.update(info_extra or {})
     if int(d.n_node) != len(c["table"]):
         ck.fail("nodes", case, info, detail="dual n_node %d, primal n_face %d" % (d.n_node, len(c["table"])))
         return
@@ -192,45 +207,189 @@ def check_nodes(ck, c, g, d, level="grid"):
         ck.fail("nodes", case, info, detail="dual node coordinates differ from the primal face centres")
 
 
-def check_data(ck, c, g, rng, mconn=None):
-    """closed grid, every node with >= 3 faces: data swap dims and keep their values in place"""
-    import uxarray as ux
-    info = {"level": "data", "closed": c["closed"], "mesh_class": c["mesh_class"]}
-    case = {k: c[k] for k in ("table", "lonlat", "n_node", "closed", "mesh_class", "name", "kind")}
-    nf, nn = len(c["table"]), c["n_node"]
-    out = {}
-    for src, ln, dst in (("n_face", nf, "n_node"), ("n_node", nn, "n_face")):
-        lead = rng.choice([(), (2,), (2, 3)])
-        arr = np.array([rng.randrange(-10 ** 6, 10 ** 6) / 64.0 for _ in range(int(np.prod(lead + (ln,))))]).reshape(lead + (ln,))
-        dims = ["d%d" % i for i in range(len(lead))] + [src]
-        uxda = ux.UxDataArray(arr.copy(), dims=dims, uxgrid=g, name="v")
-        try:
-            with warnings.catch_warnings():
-                warnings.simplefilter("ignore")
-                r = uxda.get_dual()
-        except Exception as ex:
-            ck.fail("raises", case, dict(info, source=src), detail=repr(ex))
-            continue
-        if not isinstance(r, ux.UxDataArray):
-            ck.fail("data_type", case, dict(info, source=src), detail=str(type(r)))
-            continue
-        if list(r.dims) != dims[:-1] + [dst]:
-            ck.fail("data_dims", case, dict(info, source=src), detail="dims %r" % (tuple(r.dims),))
-            continue
-        if r.shape != arr.shape or not np.array_equal(np.asarray(r.values), arr):
-            ck.fail("data_values", case, dict(info, source=src), detail="values changed or permuted")
-            continue
-        dg = r.uxgrid
-        want_len = int(dg.n_node) if dst == "n_node" else int(dg.n_face)
-        if want_len != ln:
-            ck.fail("data_grid", case, dict(info, source=src),
-                    detail="result has %d values along %s, its grid has %d" % (ln, dst, want_len))
-            continue
-        conn = dg.face_node_connectivity.values.tolist()
-        bad = spec_check(ck, c, g, dg, conn, tag="data", mconn=mconn)
-        check_nodes(ck, c, g, dg, level="data")
-        out[src] = (list(r.dims), bad)
+SWAP = {"n_face": "n_node", "n_node": "n_face"}
+DATASET_UNAVAILABLE = []          # set once UxDataset.get_dual turned out not to be runnable with the installed xarray
+LAYOUTS = [("last", 1), ("first", 2), ("last", 2), ("first", 3), ("middle", 3), ("last", 3)]      # (grid dim position, rank)
+
+
+def gen_layouts(rng, nf, nn):
+    """for each centering three of the six (position, rank) layouts, at least one with the grid dimension not last;
+    the other axes sometimes have the length of an element count"""
+    out = []
+    for src in ("n_face", "n_node"):
+        notlast = [l for l in LAYOUTS if l[0] != "last"]
+        chosen = [rng.choice(notlast), rng.choice(LAYOUTS)]
+        for pos, rank in chosen:
+            others = [rng.choice([2, 3, nf, nn]) for _ in range(rank - 1)]
+            out.append({"source": src, "position": pos, "rank": rank, "others": others})
     return out
+
+
+def layout_dims(lay, nf, nn):
+    ln = nf if lay["source"] == "n_face" else nn
+    names = ["lev", "time"][: lay["rank"] - 1]
+    dims = list(zip(names, lay["others"]))
+    at = {"first": 0, "last": len(dims), "middle": 1}[lay["position"]]
+    dims.insert(at, (lay["source"], ln))
+    return [d for d, _ in dims], tuple(n for _, n in dims)
+
+
+def check_one_data(ck, c, g, rng, lay, mconn, how="dataarray"):
+    import uxarray as ux
+    nf, nn = len(c["table"]), c["n_node"]
+    dims, shape = layout_dims(lay, nf, nn)
+    info = {"level": "data", "closed": c["closed"], "mesh_class": c["mesh_class"], "source": lay["source"],
+            "position": lay["position"], "rank": lay["rank"], "method": how}
+    case = {k: c[k] for k in ("table", "lonlat", "n_node", "closed", "mesh_class", "name", "kind", "nodes")}
+    case["data_layout"] = dict(lay, method=how)
+    arr = np.array([rng.randrange(-10 ** 6, 10 ** 6) / 64.0 for _ in range(int(np.prod(shape)))]).reshape(shape)
+    uxda = ux.UxDataArray(arr.copy(), dims=dims, uxgrid=g, name="v")
+    try:
+        with warnings.catch_warnings():
+            warnings.simplefilter("ignore")
+            if how == "dataarray":
+                r = uxda.get_dual()
+            else:
+                try:
+                    ds = ux.UxDataset({"v": uxda}, uxgrid=g)
+                    r = ds.get_dual()["v"]
+                except TypeError as ex:            # UxDataset cannot be built / rebuilt with the installed xarray (C10's business)
+                    if "Dataset" in str(ex):
+                        return "unavailable"
+                    raise
+    except Exception as ex:
+        ck.fail("raises", case, info, detail=repr(ex))
+        return None
+    if not isinstance(r, ux.UxDataArray):
+        ck.fail("data_type", case, info, detail=str(type(r)))
+        return None
+    want = [SWAP.get(x, x) for x in dims]
+    if list(r.dims) != want:
+        ck.fail("data_dims", case, info, detail="dims %r -> %r, expected %r" % (tuple(dims), tuple(r.dims), tuple(want)))
+        return None
+    if tuple(r.shape) != tuple(arr.shape) or not np.array_equal(np.asarray(r.values), arr):
+        ck.fail("data_values", case, info, detail="values changed or permuted (shape %r -> %r)" % (arr.shape, tuple(r.shape)))
+        return None
+    dg = r.uxgrid
+    for name, ln in zip(r.dims, r.shape):
+        cnt = {"n_node": int(dg.n_node), "n_face": int(dg.n_face)}.get(name)
+        if cnt is not None and cnt != ln:
+            ck.fail("data_grid", case, info, detail="dimension %s has length %d, the dual grid has %d" % (name, ln, cnt))
+            return None
+    conn = dg.face_node_connectivity.values.tolist()
+    bad = spec_check(ck, c, g, dg, conn, tag="data", mconn=mconn, case_extra={"data_layout": case["data_layout"]})
+    check_nodes(ck, c, g, dg, level="data", case_extra={"data_layout": case["data_layout"]})
+    return bad
+
+
+def check_data(ck, c, g, rng, mconn=None, layouts=None, stats=None):
+    """closed grid, every node with >= 3 faces: node/face dims swap BY NAME wherever they sit, every grid dimension of
+    the result has the dual grid's element count, values stay in place; UxDataArray.get_dual and (where the installed
+    xarray lets a UxDataset exist) UxDataset.get_dual"""
+    nf, nn = len(c["table"]), c["n_node"]
+    for lay in (layouts or gen_layouts(rng, nf, nn)):
+        how = lay.get("method", "dataarray")
+        check_one_data(ck, c, g, rng, lay, mconn, how)
+        if stats is not None:
+            key = "%s/%s/rank%d" % (lay["source"], lay["position"], lay["rank"])
+            stats[key] = stats.get(key, 0) + 1
+        if "method" not in lay and lay["position"] != "last" and rng.random() < 0.3 and not DATASET_UNAVAILABLE:
+            res = check_one_data(ck, c, g, rng, lay, mconn, "dataset")
+            if res == "unavailable":
+                DATASET_UNAVAILABLE.append(True)
+            if stats is not None:
+                k2 = "dataset_unavailable" if res == "unavailable" else "dataset_checked"
+                stats[k2] = stats.get(k2, 0) + 1
+
+
+# ---------------------------------------------------------------------------------------------
+# histories on one Grid object: public mutators of what the dual depends on, get_dual in between
+
+HISTORY_OPS = ["centers_welzl", "centers_avg", "set_face_lonlat", "set_face_xyz", "normalize"]
+
+
+def apply_op(g, op):
+    import xarray as xr
+    if op == "centers_welzl":
+        g.construct_face_centers("welzl")
+    elif op == "centers_avg":
+        g.construct_face_centers("cartesian average")
+    elif op == "set_face_lonlat":
+        lon = (np.asarray(g.face_lon.values) + 0.0371 + 180.0) % 360.0 - 180.0
+        lat = np.asarray(g.face_lat.values) * (1.0 - 2e-3)
+        g.face_lon = xr.DataArray(lon, dims=["n_face"], attrs=dict(g.face_lon.attrs))
+        g.face_lat = xr.DataArray(lat, dims=["n_face"], attrs=dict(g.face_lat.attrs))
+    elif op == "set_face_xyz":
+        for nm in ("face_x", "face_y", "face_z"):
+            old = getattr(g, nm)
+            setattr(g, nm, xr.DataArray(np.asarray(old.values) * 2.0, dims=["n_face"], attrs=dict(old.attrs)))
+    elif op == "normalize":
+        g.normalize_cartesian_coordinates()
+    else:
+        raise ValueError(op)
+
+
+def gen_history(rng):
+    """get_dual calls (Grid and UxDataArray) before/after/between mutators, incl. immediately repeated calls"""
+    h = []
+    if rng.random() < 0.8:
+        h.append("dual")
+    for _ in range(rng.randrange(1, 4)):
+        h.append(rng.choice(HISTORY_OPS))
+        if rng.random() < 0.3:
+            h.append(rng.choice(HISTORY_OPS))
+        h.append(rng.choice(["dual", "dual", "uxda_dual"]))
+        if rng.random() < 0.25:
+            h.append("dual")
+    return h
+
+
+def run_history(ck, c, hist, stats=None):
+    """every get_dual of the history must satisfy count / corners / padding and put dual node i at the CURRENT centre
+    (Grid.face_lon / face_lat at the time of the call) of primal face i"""
+    import uxarray as ux
+    g = build_grid(c)
+    for step, op in enumerate(hist):
+        extra = {"history": hist, "step": step}
+        info = {"level": "history", "closed": c["closed"], "mesh_class": c["mesh_class"], "op": op,
+                "mutators_before": sorted(set(x for x in hist[:step] if x not in ("dual", "uxda_dual")))}
+        if op in ("dual", "uxda_dual"):
+            case = {k: c[k] for k in ("table", "lonlat", "n_node", "closed", "mesh_class", "name", "kind", "nodes")}
+            case.update(extra)
+            cur_lon, cur_lat = np.asarray(g.face_lon.values), np.asarray(g.face_lat.values)
+            if not (np.all(np.isfinite(cur_lon)) and np.all(np.isfinite(cur_lat))):
+                if stats is not None:
+                    stats["stopped_nonfinite_centres"] = stats.get("stopped_nonfinite_centres", 0) + 1
+                return
+            try:
+                with warnings.catch_warnings():
+                    warnings.simplefilter("ignore")
+                    if op == "dual":
+                        d = g.get_dual()
+                    else:
+                        d = ux.UxDataArray(np.zeros(len(c["table"])), dims=["n_face"], uxgrid=g, name="v").get_dual().uxgrid
+                conn = d.face_node_connectivity.values.tolist()
+            except Exception as ex:
+                ck.fail("raises", case, info, detail=repr(ex))
+                return
+            redefined = any(x in ("centers_welzl", "set_face_lonlat", "set_face_xyz") for x in hist[:step])
+            spec_check(ck, c, g, d, conn, tag="history", check_ring=False, case_extra=extra,
+                       corners="subset" if redefined else "exact", stats=stats)
+            check_nodes(ck, c, g, d, level="history", case_extra=extra,
+                        info_extra={"op": op, "mutators_before": info["mutators_before"]})
+            if stats is not None:
+                stats["get_dual_calls"] = stats.get("get_dual_calls", 0) + 1
+        else:
+            try:
+                with warnings.catch_warnings():
+                    warnings.simplefilter("ignore")
+                    apply_op(g, op)
+                if stats is not None:
+                    stats[op] = stats.get(op, 0) + 1
+            except Exception:
+                if stats is not None:                   # a mutator that fails is not C18's business; the history ends
+                    stats["mutator_raised:" + op] = stats.get("mutator_raised:" + op, 0) + 1
+                return
 
 
 # ---------------------------------------------------------------------------------------------
@@ -522,15 +681,15 @@ def run_impl(ck, c):
     return {"g": g, "d": d, "conn": conn}
 
 
-def run_checks(ck, c, res, rng, mconn, do_data=True):
+def run_checks(ck, c, res, rng, mconn, do_data=True, stats=None, layouts=None):
     """pass 2: the property clauses on the implementation's output (mconn: rows of the exact model or None)"""
     g, d, conn = res["g"], res["d"], res["conn"]
     res["bad"] = spec_check(ck, c, g, d, conn, mconn=mconn)
     check_nodes(ck, c, g, d)
     if c["closed"]:
         res["geo"] = geometric_ccw(c, d, conn)
-    if do_data and c["mesh_class"] == "closed":
-        res["data"] = check_data(ck, c, g, rng, mconn=mconn)
+    if do_data and c["mesh_class"] == "closed" and (layouts or len(c["table"]) <= 60 or rng.random() < 0.3):
+        check_data(ck, c, g, rng, mconn=mconn, layouts=layouts, stats=stats)
     return res
 
 
@@ -548,10 +707,14 @@ def main(ck):
     ck.cov["rule"] = ("corpus + bipyramids with very uneven faces + 9 seed polyhedra + closed sphere tilings grown by split/subdivide/stellate/dual "
                       "(meshgen), refined tilings (2-3 rounds of stellation with random triangle pairs merged into "
                       "quads), tilings with a node exactly on the antimeridian / on a pole, partial grids by face "
-                      "deletion; all renumbered, random start corner, random rigid rotation; node valence <= 8, face "
+                      "deletion; all renumbered, random start corner, random rigid rotation; data arrays of rank 1-3 with the grid "
+                      "dimension first / middle / last (other axes sometimes as long as an element count); histories on one Grid: "
+                      "get_dual / UxDataArray.get_dual before, between and after construct_face_centers(both methods), "
+                      "face_lon/face_lat and face_x/y/z setters, normalize_cartesian_coordinates, repeated calls; node valence <= 8, face "
                       "size 3..8, no duplicate nodes; non-trivial = at least one node with >= 3 faces; distinct = "
                       "distinct (table, coordinates)")
     hist, cls_hist, val_hist, ext_hist, conv_hist = {}, {}, {}, {}, {}
+    data_stats, hist_stats = {}, {}
     results = []
     geo_pos = geo_neg = 0
     for idx, c in enumerate(cases):
@@ -588,7 +751,7 @@ def main(ck):
             continue
         m = models[idx]
         mconn = m[0] if (m and not (m and m[0] == "ERR")) else None
-        run_checks(ck, c, res, ck.rng, mconn)
+        run_checks(ck, c, res, ck.rng, mconn, stats=data_stats)
         if "geo" in res:
             geo_pos += res["geo"][0]
             geo_neg += res["geo"][1]
@@ -597,6 +760,16 @@ def main(ck):
             ck.sample({"kind": c["kind"], "name": c["name"], "mesh_class": c["mesh_class"],
                        "primal_faces": faces[:4], "dual_rows_impl": [["F" if x == FILL else x for x in r] for r in res["conn"][:4]]})
     tm["clauses_and_data"] = round(time.time() - t0, 1)
+    t0 = time.time()
+    # ---- histories on one Grid object ----------------------------------------------------------
+    n_hist = 0
+    for idx, (c, res) in enumerate(zip(cases, results)):
+        if res is None or len(c["table"]) > 400:
+            continue
+        if ck.rng.random() < (0.45 if ck.tier == "quick" else 0.3):
+            run_history(ck, c, gen_history(ck.rng), hist_stats)
+            n_hist += 1
+    tm["histories"] = round(time.time() - t0, 1)
     t0 = time.time()
     # ---- model correspondence ---------------------------------------------------------------
     n_corr = n_skip = n_model_wrong = 0
@@ -695,6 +868,8 @@ def main(ck):
     tm["audit"] = round(time.time() - t0, 1)
     ck.extra.update({
         "phase_seconds": tm,
+        "data_layouts_checked": dict(sorted(data_stats.items())), "histories": n_hist,
+        "history_ops": dict(sorted(hist_stats.items())),
         "case_kinds": hist, "mesh_classes": cls_hist, "node_valence_histogram": {str(k): v for k, v in sorted(val_hist.items())},
         "face_extent_classes": ext_hist, "face_convexity": conv_hist, "model_vs_impl_rows_compared": n_corr, "rows_skipped_near_tie(<1e-9)": n_skip,
         "rows_where_the_exact_model_violates_the_ring_clause": n_model_wrong,
@@ -703,8 +878,9 @@ def main(ck):
         "canonical_form": "rings compared up to rotation (start face is not fixed by the property); orientation and "
                           "edge adjacency exactly: prev_corner(F_i, v) == next_corner(F_{i+1}, v) on primal faces whose "
                           "counter-clockwise orientation was verified in exact rational arithmetic",
-        "clauses_checked_on_impl": ["raises", "count", "nodes", "pad", "corners", "ring (closed grids)", "data_type",
-                                    "data_dims", "data_values", "data_grid", "jit"],
+        "clauses_checked_on_impl": ["raises", "count", "nodes (current face_lon/face_lat, after every get_dual of a history)",
+                                    "pad", "corners", "ring (closed grids)", "data_type", "data_dims (by name, grid dimension first/"
+                                    "middle/last)", "data_values", "data_grid (every grid dimension vs the dual's counts)", "jit"],
         "partial": "ring order is proved only under the hypothesis that the azimuth order of the face centres (what _order_nodes "
                    "measures since c8b893ff) equals the umbrella order (C18_ring_partial); the exact checker decides it for every generated mesh; face centres "
                    "are whatever Grid.face_lon/face_lat report (C04 owns them)"})
@@ -728,6 +904,10 @@ def replay(ck, rp):
     c.setdefault("extent_class", None)
     c.setdefault("name", "replay")
     c.setdefault("kind", "replay")
+    if "history" in c:
+        prepare(c)
+        run_history(ck, c, c["history"])
+        return
     res = run_impl(ck, c)
     if res is None:
         return
@@ -739,6 +919,9 @@ def replay(ck, rp):
                 mconn = m[0]
     except Exception:
         pass
+    if "data_layout" in c:
+        check_data(ck, c, res["g"], ck.rng, mconn=mconn, layouts=[c["data_layout"]])
+        return
     run_checks(ck, c, res, ck.rng, mconn)
 
 
